@@ -49,12 +49,22 @@ Print Assumptions C08_returns_iff_replaced.
 
 (* mode_preserved: fault-free, the replacement carries the original's permission bits *)
 Theorem C08_mode_preserved : forall v e pid chunks c0 m g f,
-  (m < perm_mask)%N -> f Target = Some (mkFile c0 m g) ->
+  (m < sugid_free)%N -> f Target = Some (mkFile c0 m g) ->
   let r := atomic_write v e pid f (nofault (prog chunks)) in
   raised (snd r) = false /\
   exists x, fst r Target = Some x /\ fcontent x = concat chunks /\ fmode x = m.
 Proof. exact mode_preserved. Qed.
 Print Assumptions C08_mode_preserved.
+
+(* The hypothesis m < sugid_free (neither set-uid nor set-gid) cannot be dropped: the code calls
+   chmod and then chown, and on Linux a successful chown clears those two bits (known finding F11b;
+   the property speaks of the permission bits).  Original 04755 -> replacement 0755: *)
+Theorem C08_mode_preserved_sugid_refuted : forall v,
+  let f := upd (fun _ => None) Target (Some (mkFile [111]%N 2541 0)) in
+  let r := atomic_write v (mkEnv 420 0 (fun _ => true)) 7 f (nofault (prog [[110]%N])) in
+  raised (snd r) = false /\ option_map fmode (fst r Target) = Some 493%N.
+Proof. intros [|]; vm_compute; split; reflexivity. Qed.
+Print Assumptions C08_mode_preserved_sugid_refuted.
 
 (* mode_preserved_under_fault.  Full statement: for every fault pattern, if the target is replaced
    it carries the original's permission bits.  FALSE of the unchanged code (F11, refuted below):
@@ -62,7 +72,7 @@ Print Assumptions C08_mode_preserved.
    default mode.  TRUE of the repaired code, for every fault pattern that does not make stat
    report a spurious ENOENT for an existing original. *)
 Theorem C08_mode_preserved_under_fault : forall e pid chunks c0 m g f xs,
-  (m < perm_mask)%N -> f Target = Some (mkFile c0 m g) ->
+  (m < sugid_free)%N -> f Target = Some (mkFile c0 m g) ->
   map fst xs = prog chunks -> Forall (fun x => snd x <> FaultENOENT) xs ->
   let r := atomic_write Fixed e pid f xs in
   (raised (snd r) = false /\ exists x, fst r Target = Some x /\ fcontent x = concat chunks /\ fmode x = m) \/
